@@ -682,4 +682,17 @@ def run(repo, rep, tier):
     if i.rule == 'R4/single-source' and ('geo_assignments' in (i.subject or '') or 'geo_assignments' in (i.construct or '') or 'geo_assignments' in (i.detail or '')):
       i.rule = 'R1e/assignments-of-installed-order'
       rep.instances.append(i)
+  # the index classes themselves come from GeoEligibility.get_eligible_assignments(geos, indices=True): positions must refer
+  # to the given order and each class to the rows its name says (C16.R3); a fast path that answers in table order puts
+  # every eligibility class on the wrong geo
+  from mmsa.props import c16
+  sub = type(rep)(rep.prop, rep.tier, rep.repo)
+  try:
+    c16.r3_selection(repo, sub)
+  except Undecided as ex_:
+    sub.undecided('R3/selection', 'get_eligible_assignments', str(ex_), '')
+  for i in sub.instances:
+    if i.rule == 'R3/selection':
+      i.rule = 'R1e/index-classes'
+      rep.instances.append(i)
   rep.assume('the eligibility table has no all-zero row and distinct IDs (C16); cardinalities are abstracted')
